@@ -456,7 +456,9 @@ def run(ctx):
                        "value chunks: boundary scalars (0,1,2^64-1,2^64,2^128-1,2^192,r-1,r-2,random limbs) x all 7 sizes, encoder output, masked lists of odd lengths, oversized chunks; "
                        "bsgs: table sizes 1,2,16,65536, x around multiples of m; aggregate with chunk carries (low sums 2^32-1, 2^32, 2^33-2, totals around 2^64); "
                        "oracle cases: encrypt/decrypt, aggregate, transfer and sec-to-pub with balance/amount pairs incl. equal, zero, bal+1; "
-                       "crafted-prover truncated-response forgeries for transfers and sec-to-pub; "
+                       "systematic perturbations: every key component, every ciphertext component, every proof component (swapped with another valid transfer's / bit-flipped); "
+                       "crafted-prover forgeries (truncated response for transfers and sec-to-pub, overspend with bogus remaining range proof); "
+                       "table Serial/Deserial round trips m in {1,2,16,1000,65536,65537,2^17}; sha3 tie of the first challenge of 6 real proofs; "
                        "distinct = distinct canonical case hash")
     if proof_broken:
         found = bool(ctx.violations)
